@@ -118,9 +118,9 @@ def check(run, replay=None):
             tables[(name, fp)] = tab
         # ---------------- assignments and reductions (contraction disabled, as the property states); in the
         # builds at default settings only fastexp(a) goes through the assignment sweep
-        for what in (("assign", "reduce") if fp == "off" else ("assign",)):
+        for what in (("assign", "reduce", "general") if fp == "off" else ("assign",)):
             rc, so, se = C.sh("%s %s %s %d %s" % (exe, what, mode, seed, "all" if fp == "off" else "fxonly"), timeout=1800)
-            lines = [l for l in so.split("\n") if l[:2] in ("A ", "R ")]
+            lines = [l for l in so.split("\n") if l[:2] in ("A ", "R ", "G ")]
             if rc != 0:
                 run.finding("crash:%s:%s" % (what, name), "counterexample",
                             "%s sweep died in the %s build after %d statements (last: %s): %s" % (what, name, len(lines), lines[-1] if lines else "-", se[-300:]),
@@ -151,6 +151,23 @@ def check(run, replay=None):
                                     "counters differ between operations of one class or the scalar reference was vectorized (%s): %s" % (name, l), {"line": l})
                     if pred.get(k) != (h, p, tl) and first_cnt is None:
                         first_cnt = (l, pred.get(k), (h, p, tl), describe_A(t))
+                elif t[0] == "G":
+                    r = int(t[3])
+                    h, p, tl, mism = int(t[-4]), int(t[-3]), int(t[-2]), int(t[-1])
+                    kind = int(t[4 + r])
+                    key = "general w%s rank%s %s" % (t[2], t[3], "simd" if p > 0 else "scalar")
+                    dist[key] = dist.get(key, 0) + 1
+                    if p > 0:
+                        n_simd += 1
+                    desc = "%s, %s width %s rank %s dims %s; target address mod width %s strides %s; operand address mod width %s strides %s" % (
+                        "t = a + a" if kind == 0 else "sum(a)", {"f": "float", "d": "double"}[t[1]], t[2], r, t[4:4 + r], t[5 + r], t[6 + r:6 + 2 * r],
+                        t[6 + 2 * r], t[7 + 2 * r:7 + 3 * r])
+                    if mism:
+                        run.finding("simd-values:%s:%s:general-rank%s" % (name, t[1], r), "counterexample",
+                                    "vectorized evaluation differs from scalar evaluation (%s build): %s; counters %d/%d/%d" % (name, desc, h, p, tl),
+                                    {"case": "general", "build": name, "flags": fl, "line": l})
+                    if pred.get(k) != (h, p, tl) and first_cnt is None:
+                        first_cnt = (l, pred.get(k), (h, p, tl), desc)
                 else:
                     h, p, tl, refvec, okb = int(t[9]), int(t[10]), int(t[11]), int(t[12]), int(t[15])
                     key = "reduce w%s rank%s %s" % (t[2], t[3], "simd" if p > 0 else "scalar")
@@ -202,7 +219,7 @@ def check(run, replay=None):
     cov["exhaustive"] = False
     cov["rule"] = ("per instruction-set build (those the host CPU supports): float and double, rank 1 and rank 2 (3 padded rows), every length 0..4w+3, "
                    "every alignment offset 0..w-1 of the target and of operand a, operand b offsets %s, four operand classes x up to 6 operations, plus a strided "
-                   "operand and an unpadded row stride; values random finite of mixed sign and magnitude (seeded); every element and the guard elements around "
+                   "operand and an unpadded row stride; rank-3 arrays on user memory with padded/unpadded row and plane strides; FixedArray operands of rank 1 at every alignment and of rank 2 with row lengths 2w, 2w+1, 3w, 4w-1; values random finite of mixed sign and magnitude (seeded); every element and the guard elements around "
                    "the target compared with the same statement on strided copies (Adept's scalar path) and with a plain C++ loop; reductions sum/product/maxval/"
                    "minval/norm2/mean/sum(a*b). Non-trivial = the hook shows at least one packet was executed." % ("sampled (equal, +1, 0)" if mode == "thin" else "all"))
     run.assumptions += ["VecSplit.v is a hand model; tie = hook counters (prologue, packets, epilogue) of every statement of the sweep compared with the model's counts",
